@@ -131,6 +131,12 @@ func runCheck(prop, repo, verif, tier string) int {
 		fmt.Println("ENGINE-ERROR load:", err)
 		return 2
 	}
+	for _, e := range w.CS.LoadErrors {
+		fmt.Println("ENGINE-ERROR contract file does not load:", e)
+	}
+	if len(w.CS.LoadErrors) > 0 {
+		return 2
+	}
 	var keys, lemmas []string
 	for _, k := range w.CS.funcKeys() {
 		if hasProp(w.CS.Funcs[k].Props, prop) {
